@@ -299,6 +299,9 @@ type breaker struct {
 	// used to identify the range of runes between the previous and current
 	// candidate.
 	previousWordBreak breakOption
+	// beforePreviousWordBreak is the value of previousWordBreak before the last
+	// call to nextWordBreak, used to roll back a rejected candidate.
+	beforePreviousWordBreak breakOption
 	// isUnusedWord indicates that the unusedBreak field is valid.
 	isUnusedWord        bool
 	unusedGraphemeBreak breakOption
@@ -363,6 +366,7 @@ func (l *breaker) nextWordBreak() (breakOption, bool) {
 		if !breakOk {
 			return option, false
 		}
+		l.beforePreviousWordBreak = l.previousWordBreak
 		l.previousWordBreak = l.unusedWordBreak
 		l.unusedWordBreak = option
 	}
@@ -371,6 +375,15 @@ func (l *breaker) nextWordBreak() (breakOption, bool) {
 
 func (l *breaker) markWordOptionUnused() {
 	l.isUnusedWord = true
+}
+
+// markWordOptionInvalid indicates that the option just returned by nextWordBreak
+// was rejected without being tried (it falls inside a glyph cluster, for instance).
+// The candidates tracking is rolled back, so that the grapheme boundaries before
+// the rejected option are still considered by nextGraphemeBreak.
+func (l *breaker) markWordOptionInvalid() {
+	l.unusedWordBreak = l.previousWordBreak
+	l.previousWordBreak = l.beforePreviousWordBreak
 }
 
 // nextGraphemeBreak returns the next grapheme cluster boundary break between
@@ -1061,6 +1074,7 @@ func (l *LineWrapper) wrapNextLine(config lineConfig) (done bool) {
 		switch result, candidateRun := l.processBreakOption(option, config); result {
 		case breakInvalid:
 			l.restore()
+			l.breaker.markWordOptionInvalid()
 			continue
 		case fits:
 			l.scratch.markCandidateBest(candidateRun)
